@@ -6,6 +6,10 @@ use std::fs::{File, OpenOptions};
 use std::io::{Read, Seek, SeekFrom, Write};
 use std::path::{Path, PathBuf};
 
+/// Largest record body the log accepts: `append` refuses bigger ones and the reader treats a bigger
+/// length field as the end of the log.
+const MAX_WAL_RECORD_LEN: u32 = 1024 * 1024; // 1MB
+
 #[derive(Debug, Clone, PartialEq)]
 pub enum WalRecord {
     BeginTx {
@@ -499,6 +503,8 @@ pub fn verif_crc32(bytes: &[u8]) -> u32 {
 pub struct Wal {
     path: PathBuf,
     file: Option<File>,
+    /// set once the first `append` has cut off whatever followed the last valid record
+    tail_checked: bool,
 }
 
 impl Wal {
@@ -513,7 +519,15 @@ impl Wal {
         Ok(Self {
             path,
             file: Some(file),
+            tail_checked: false,
         })
+    }
+
+    /// Offset just past the last record that `WalReader` accepts.
+    fn valid_end(path: &Path) -> Result<u64> {
+        let mut reader = WalReader::open(path)?;
+        while reader.next_record()?.is_some() {}
+        Ok(reader.offset)
     }
 
     #[inline]
@@ -527,6 +541,18 @@ impl Wal {
         };
         let body = record.encode_body()?;
         let len = u32::try_from(body.len()).map_err(|_| Error::WalRecordTooLarge(u32::MAX))?;
+        if len > MAX_WAL_RECORD_LEN {
+            return Err(Error::WalRecordTooLarge(len));
+        }
+        if !self.tail_checked {
+            // Whatever follows the last valid record (a torn write, garbage, zero fill) is not part of
+            // the log: cut it off, or the new record would land behind it where no reader finds it.
+            let valid_end = Self::valid_end(&self.path)?;
+            if file.metadata()?.len() > valid_end {
+                file.set_len(valid_end)?;
+            }
+            self.tail_checked = true;
+        }
         let crc = crc32(&body);
 
         let offset = file.metadata()?.len();
@@ -743,9 +769,9 @@ impl WalReader {
             return Ok(None);
         };
 
-        const MAX_WAL_RECORD_LEN: u32 = 1024 * 1024; // 1MB
         if len > MAX_WAL_RECORD_LEN {
-            return Err(Error::WalRecordTooLarge(len));
+            // `append` never writes such a record: this is tail garbage, i.e. the end of the log.
+            return Ok(None);
         }
 
         let Some(crc) = self.try_read_u32()? else {
@@ -767,9 +793,12 @@ impl WalReader {
             return Ok(None);
         }
 
-        self.offset += 4 + 4 + len as u64;
+        // A checksum-valid body that does not decode (e.g. zero fill: len = 0, crc = 0) is tail garbage too.
+        let Ok(record) = WalRecord::decode_body(&body) else {
+            return Ok(None);
+        };
 
-        let record = WalRecord::decode_body(&body)?;
+        self.offset += 4 + 4 + len as u64;
         Ok(Some((record_offset, record)))
     }
 
